@@ -7,6 +7,7 @@ import (
 
 	"github.com/nuetzliches/hookaido/internal/verifkit/qcheck"
 	"github.com/nuetzliches/hookaido/internal/verifkit/qmodel"
+	"github.com/nuetzliches/hookaido/internal/verifkit/qsys"
 	"github.com/nuetzliches/hookaido/internal/verifkit/runner"
 )
 
@@ -20,7 +21,7 @@ func alpha() qcheck.Alpha {
 		LeaseOps: []string{"ack", "nack", "nackd", "ext", "dead"}, LeaseBatch: true, StaleIDs: true, MaxHandles: 3,
 		Operator:  []string{"cancel", "requeue", "resume", "rqdead", "deldead"},
 		FilterOps: []string{"cancelf", "requeuef", "resumef"},
-		Filters:   []qmodel.Filter{{}, {Route: "/r1", Limit: 1}},
+		Filters:   []qmodel.Filter{{}, {Route: "/r1", Limit: 1}, {Before: qsys.T0 + 1}, {Before: qsys.T0 + int64(sec), State: qmodel.Queued}},
 		Reads:     []string{"list", "listdead", "stats"},
 		Ticks:     []time.Duration{sec, 2 * sec, 10 * sec},
 	}
